@@ -1035,6 +1035,20 @@ func (in *Interp) refEqual(a, b Value) *Term {
 			}
 		}
 		return acc
+	case *ArrayV:
+		y := b.(*ArrayV)
+		acc := in.ts.True()
+		for i := range x.elems {
+			switch ev := x.elems[i].(type) {
+			case *Term:
+				acc = in.ts.And(acc, in.ts.Eq(ev, y.elems[i].(*Term)))
+			case StrV:
+				acc = in.ts.And(acc, in.ts.Bool(ev == y.elems[i].(StrV)))
+			default:
+				acc = in.ts.And(acc, in.refEqual(ev, y.elems[i]))
+			}
+		}
+		return acc
 	}
 	panic(unsupported{fmt.Sprintf("comparison of %T", a)})
 }
